@@ -255,7 +255,16 @@ func (engine *Engine) DialAsyncTimeout(network, addr string, timeout time.Durati
 			h(c, nil)
 		})
 	} else if timeout > 0 {
-		_ = c.setDeadline(&c.wTimer, ErrDialTimeout, time.Now().Add(timeout))
+		// Arm the dial timeout only while the connect is still pending: the
+		// poller may already have reported success (and cleared the deadline),
+		// and a timer armed after that would close the established connection.
+		c.mux.Lock()
+		if !c.closed && c.onConnected != nil {
+			c.wTimer = engine.AfterFunc(timeout, func() {
+				_ = c.closeWithError(ErrDialTimeout)
+			})
+		}
+		c.mux.Unlock()
 	}
 
 	return nil
